@@ -168,6 +168,34 @@ def check(run):
         run.traces_validated += 1
         if case["kind"] == "string" and case["key"]:
             run.sample({"template": case["t"], "classes": "".join(x[0] for x in case["classes"])[:80], "expected": {k: case[k] for k in ("key", "sig", "fp", "hexstring")}}, cap=2)
+    # the grammars are functions of the string alone - not of the clock: OpenPGP headers carry a signature-creation time, fingerprints and keys
+    # nothing at all; every validator again with the clock frozen in 1970, at each creation time that occurs (just before / after) and in 2100
+    from .. import gamma
+    from ..fakeclock import FakeClock
+    hdr_times = sorted({int.from_bytes(h[i + 2:i + 6], "big") for h in gamma.HEADERS for i in range(len(h) - 6) if h[i:i + 2] == b"\x05\x02"})
+    probes = [(nm, pred, chk, x) for nm, pred, chk, x in
+              [("hexstring", c.is_hex_string, c.checkformat_hex_string, "0502ffffffff"), ("hexstring", c.is_hex_string, c.checkformat_hex_string, "05027fffffff"),
+               ("key", c.is_hex_key, c.checkformat_hex_key, keyA), ("fp", c.is_gpg_fingerprint, c.checkformat_gpg_fingerprint, "f0" * 20),
+               ("sig", c.is_hex_signature, None, good_sig)]]
+    for h in gamma.HEADERS + [bytes.fromhex("0502ffffffff"), bytes.fromhex("04001608" + "0502" + "7ffffff0")]:
+        ent = {"other_headers": h.hex(), "signature": good_sig}
+        probes += [("gpg entry", c.is_gpg_signature, c.checkformat_gpg_signature, ent), ("any entry", c.is_signature, c.checkformat_signature, ent),
+                   ("any entry", None, c.checkformat_any_signature, ent), ("gpg entry", c.is_gpg_signature, c.checkformat_gpg_signature, dict(ent, see_also="f0" * 20))]
+    base = [(pred(x) if pred else None, raises(chk, x) is None if chk else None) for nm, pred, chk, x in probes]
+    clock = FakeClock()
+    nclk = 0
+    try:
+        for inst in [0, 1, 86400 * 365] + [t + d for t in hdr_times for d in (-30, -1, 0, 1)] + [2 ** 31 - 1, 2 ** 31, 4102444800, 2 ** 32 - 1, 2 ** 32 + 5]:
+            clock.set_epoch(inst)
+            for (nm, pred, chk, x), b in zip(probes, base):
+                got = (pred(x) if pred else None, raises(chk, x) is None if chk else None)
+                run.evaluations += 1
+                nclk += 1
+                if got != b:
+                    viol(f"{nm} validator: the verdict on one and the same value changes with the clock", {"value": repr(x)[:200], "clock": inst, "real_clock": b, "fake_clock": got})
+    finally:
+        clock.close()
+    run.extra["clock_probes"] = nclk
     # non-string values in every validator
     for x in NONSTRINGS:
         for name, pred, chk, twin in pairs:
